@@ -19,64 +19,40 @@ fn any_attr() -> Option<u8> {
     }
 }
 
-/// Pre-state catalogue: the same concrete calls are applied to the graph (real API, permissive
-/// policies `ps`) and to the reference model. Returns true if the state contains a self-loop.
-fn build_pre(g: &mut G, m: &mut RefGraph, ps: &GraphSpecs, pre: u8) -> bool {
-    match pre {
-        0 => false,
-        1 => {
-            pn(g, m, 2, any_attr());
-            pn(g, m, 0, any_attr());
-            false
-        }
-        2 => {
-            pn(g, m, 2, any_attr());
-            pn(g, m, 0, None);
-            pe(g, m, ps, 2, 0);
-            false
-        }
-        3 => {
-            pn(g, m, 2, None);
-            pn(g, m, 0, any_attr());
-            pn(g, m, 1, None);
-            pe(g, m, ps, 2, 0);
-            pe(g, m, ps, 0, 1);
-            false
-        }
-        4 => {
-            pn(g, m, 2, None);
-            pn(g, m, 0, None);
-            pe(g, m, ps, 2, 2);
-            true
-        }
-        5 => {
-            // parallel edges (meaningful on multi-edge kinds)
-            pn(g, m, 2, None);
-            pn(g, m, 0, None);
-            pe(g, m, ps, 2, 0);
-            pe(g, m, ps, 2, 0);
-            false
-        }
-        _ => {
-            // edge given against name order: (1,0) is stored as (0,1) on undirected graphs while
-            // the positions are 1 -> 2, 0 -> 1
-            pn(g, m, 2, None);
-            pn(g, m, 0, None);
-            pn(g, m, 1, any_attr());
-            pe(g, m, ps, 1, 0);
-            false
-        }
+/// Pre-state catalogue. The graph is filled by `build_direct` (constant shape for the engine;
+/// validated against real add_node/add_edge histories by the c02_build_* harnesses and natively),
+/// the reference model by the same node and edge lists. Returns (graph, model, has self-loop).
+fn build_pre(directed: bool, multi: bool, pre: u8) -> (G, RefGraph, bool) {
+    let ps = permissive(directed, multi);
+    let (a1, a2) = (any_attr(), any_attr());
+    let (w1, w2) = (any_f64(), any_f64());
+    let (nodes, edges, lp): (Vec<(u8, Option<u8>)>, Vec<(u8, u8, f64)>, bool) = match pre {
+        0 => (vec![], vec![], false),
+        1 => (vec![(2, a1), (0, a2)], vec![], false),
+        2 => (vec![(2, a1), (0, None)], vec![(2, 0, w1)], false),
+        3 => (vec![(2, None), (0, a1), (1, None)], vec![(2, 0, w1), (0, 1, w2)], false),
+        4 => (vec![(2, None), (0, None)], vec![(2, 2, w1)], true),
+        // parallel edges (multi-edge kinds only)
+        5 => (vec![(2, None), (0, None)], vec![(2, 0, w1), (2, 0, w2)], false),
+        // edge given against name order: (1,0) is stored as (0,1) on undirected graphs while the
+        // positions are 1 -> 2, 0 -> 1
+        _ => (vec![(2, None), (0, None), (1, a1)], vec![(1, 0, w1)], false),
+    };
+    let mut m = RefGraph::empty();
+    let mut i = 0;
+    while i < nodes.len() {
+        m.add_node(nodes[i].0, nodes[i].1);
+        i += 1;
     }
-}
-fn pn(g: &mut G, m: &mut RefGraph, x: u8, a: Option<u8>) {
-    g.add_node(node(x, a));
-    m.add_node(x, a);
-}
-fn pe(g: &mut G, m: &mut RefGraph, ps: &GraphSpecs, u: u8, v: u8) {
-    let w = any_f64();
-    let r = g.add_edge(edge(u, v, w));
-    core::mem::forget(r);
-    let _ = m.add_edge(ps, u, v, w);
+    let mut k = 0;
+    while k < edges.len() {
+        let _ = m.add_edge(&ps, edges[k].0, edges[k].1, edges[k].2);
+        k += 1;
+    }
+    let g = build_direct(ps, &nodes, &edges);
+    core::mem::forget(nodes);
+    core::mem::forget(edges);
+    (g, m, lp)
 }
 
 fn op_endpoints(op: u8) -> (u8, u8) {
@@ -112,12 +88,9 @@ fn check_getters(g: &G, r: &RefGraph) {
 }
 
 /// One operation from the catalogue on one pre-state; 8 policy combinations symbolic.
-fn c01_step(directed: bool, multi: bool, pre: u8, op: u8, dd: u8) {
-    let ps = permissive(directed, multi);
-    let mut g: G = Graph::new(ps.clone());
-    let mut expect = RefGraph::empty();
-    let has_loop = build_pre(&mut g, &mut expect, &ps, pre);
-    let specs = any_specs_kind_dd(directed, multi, dd);
+fn c01_step(directed: bool, multi: bool, pre: u8, op: u8, dd: u8, mm: u8) {
+    let (mut g, mut expect, has_loop) = build_pre(directed, multi, pre);
+    let specs = any_specs_kind_dd_mm(directed, multi, dd, mm);
     assume(specs.self_loops || !has_loop);
     g.specs = specs.clone();
     let (a, b);
@@ -163,11 +136,8 @@ fn c01_step(directed: bool, multi: bool, pre: u8, op: u8, dd: u8) {
 /// Public getters agree with the model after a concrete-policy operation (cheap observation of
 /// what users see: names in order, attributes, edge count).
 fn c01_getters(directed: bool, multi: bool, pre: u8, op: u8, dd: u8) {
-    let ps = permissive(directed, multi);
-    let mut g: G = Graph::new(ps.clone());
-    let mut expect = RefGraph::empty();
-    let _ = build_pre(&mut g, &mut expect, &ps, pre);
-    let specs = GraphSpecs { edge_dedupe_strategy: dedupe_of(dd), ..ps.clone() };
+    let (mut g, mut expect, _lp) = build_pre(directed, multi, pre);
+    let specs = GraphSpecs { edge_dedupe_strategy: dedupe_of(dd), ..permissive(directed, multi) };
     g.specs = specs.clone();
     let (u, v) = op_endpoints(op);
     let w = any_f64();
@@ -181,12 +151,9 @@ fn c01_getters(directed: bool, multi: bool, pre: u8, op: u8, dd: u8) {
 }
 
 /// C03: as c01_step but the assertion is the traversal-list clause only.
-fn c03_step(directed: bool, multi: bool, pre: u8, op: u8, dd: u8) {
-    let ps = permissive(directed, multi);
-    let mut g: G = Graph::new(ps.clone());
-    let mut before = RefGraph::empty();
-    let has_loop = build_pre(&mut g, &mut before, &ps, pre);
-    let specs = any_specs_kind_dd(directed, multi, dd);
+fn c03_step(directed: bool, multi: bool, pre: u8, op: u8, dd: u8, mm: u8) {
+    let (mut g, before, has_loop) = build_pre(directed, multi, pre);
+    let specs = any_specs_kind_dd_mm(directed, multi, dd, mm);
     assume(specs.self_loops || !has_loop);
     g.specs = specs.clone();
     let (u, v) = op_endpoints(op);
@@ -207,12 +174,9 @@ fn c03_step(directed: bool, multi: bool, pre: u8, op: u8, dd: u8) {
 }
 
 /// Batch entry points: exact-prefix semantics. Two edges, symbolic policies.
-fn c01_batch(directed: bool, multi: bool, pre: u8, op1: u8, op2: u8, which: u8, dd: u8) {
-    let ps = permissive(directed, multi);
-    let mut g: G = Graph::new(ps.clone());
-    let mut before = RefGraph::empty();
-    let has_loop = build_pre(&mut g, &mut before, &ps, pre);
-    let specs = any_specs_kind_dd(directed, multi, dd);
+fn c01_batch(directed: bool, multi: bool, pre: u8, op1: u8, op2: u8, which: u8, dd: u8, mm: u8) {
+    let (mut g, before, has_loop) = build_pre(directed, multi, pre);
+    let specs = any_specs_kind_dd_mm(directed, multi, dd, mm);
     assume(specs.self_loops || !has_loop);
     g.specs = specs.clone();
     let (u1, v1) = op_endpoints(op1);
